@@ -620,6 +620,9 @@ class HammingReward(Rewards):
         argmax = self._argmax
         comparable,shape = extract_shape(action,argmax[0],True)
 
+        #an action that is one label (what a multi-label simulation offers) is the set holding just that label
+        if not isinstance(comparable,(list,tuple)): comparable = [comparable]
+
         n_intersect = 0
 
         for a in comparable: n_intersect += a in self._argmax
